@@ -21,6 +21,7 @@ type FedInput struct {
 	OpName  string                 `json:"operation_name,omitempty"`
 	Vars    map[string]interface{} `json:"variables,omitempty"`
 	ListLen int                    `json:"list_len,omitempty"` // override the length of Query.allUsers
+	ListOnly []string              `json:"list_only,omitempty"` // with ListLen: repeat only these user ids
 	Faults  []FaultSpec            `json:"faults,omitempty"`
 	Barrier int                    `json:"barrier,omitempty"` // hold service calls until this many are in flight (or 150ms)
 }
@@ -170,6 +171,9 @@ func RunFed(c *Ctx, in FedInput, timeout time.Duration, opts ...gateway.Option) 
 			ids = append(ids, id)
 		}
 		sort.Strings(ids)
+		if len(in.ListOnly) > 0 {
+			ids = in.ListOnly
+		}
 		var l []interface{}
 		for i := 0; i < in.ListLen; i++ {
 			l = append(l, Ref{"User", ids[i%len(ids)]})
